@@ -1,6 +1,6 @@
 # End-to-end half of C02: record histories with mappings, forks, execs and call chains -> perf.data -> `samply import --save-only` -> resolved frames.
 # Model: coq/Model/ConverterMaps.v (+ Attribution.v); tie: Tie/C02e.v (verdict_e2e).
-import json, os, shutil, struct, subprocess
+import json, os, re, shutil, struct, subprocess
 from concurrent.futures import ThreadPoolExecutor
 from . import common as K
 from . import perfdata as P
@@ -154,7 +154,7 @@ def to_perf(recs):
             out.append(P.exit_(r[1], r[1], r[1], r[1], r[2]))
             last = r[2]
         elif k == "mmap":
-            path = FIXTURE if r[6] == "fixture" else "/nonexistent/verif/lib%s.so" % r[6].split(":")[1]
+            path = FIXTURE if r[6] == "fixture" else _absent_path(int(r[6].split(":")[1]))
             out.append(P.mmap2(r[1], r[1], r[3], r[4], r[5], path, r[2]))
             last = r[2]
         else:
@@ -163,6 +163,12 @@ def to_perf(recs):
             last = r[2]
     out.append(P.finished_round())
     return P.build(out, first_time=ORIGIN, last_time=last)
+
+
+def _absent_path(k):
+    """the recorded path of absent library k: libraries 3 and 4 have the file names of libraries 0 and 1 in another directory (without a build id
+    and without the file, the path is all that tells them apart)"""
+    return "/nonexistent/verif/d%d/lib%d.so" % (k // 3, k % 3)
 
 
 def observed(profile):
@@ -182,8 +188,9 @@ def observed(profile):
                     name = sa[fu["name"][fn]]
                     fr.append(("raw", int(name, 16)) if name.startswith("0x") else ("bad", name))
                 else:
-                    ln = libs[rt["lib"][r]]["name"]
-                    lib = FIXTURE_LIB if ln == "example-linux" else int(ln[3:-3]) if ln.startswith("lib") and ln.endswith(".so") else 999
+                    lp = libs[rt["lib"][r]]["path"]
+                    m = re.fullmatch(r"/nonexistent/verif/d(\d)/lib(\d)\.so", lp)
+                    lib = FIXTURE_LIB if lp.endswith("/example-linux") else (int(m.group(2)) + 3 * int(m.group(1))) if m else 999
                     fr.append(("lib", lib, ft["address"][f]))
                 i = st["prefix"][i]
             return fr[::-1]
